@@ -410,6 +410,16 @@ class Evaluator:
             return Other()
         g = e.generators[0]
         it = g.iter
+        if isinstance(it, (ast.Tuple, ast.List)) and it.elts and not g.ifs and not any(isinstance(x, ast.Starred) for x in it.elts) and len(it.elts) <= 8:
+            # (f(y) for y in (a, b)): evaluated item by item
+            vals = []
+            for item in it.elts:
+                env2 = dict(env)
+                self.bind_target(g.target, self.ev(item, env), env2)
+                vals.append(self.ev(e.elt, env2))
+            if isinstance(e, ast.ListComp) and all(isinstance(v, Deg) for v in vals):
+                return ListV((len(vals), 0), None, {i: v.v for i, v in enumerate(vals)})
+            return ("tuple", vals)
         enum = isinstance(it, ast.Call) and is_name(it.func, "enumerate") and it.args
         src_list = self.ev(it.args[0] if enum else it, env)
         # positions of a list, one left out:  [i for i in range(len(L)) if i != k]
@@ -623,6 +633,13 @@ class Evaluator:
         if name == "where" and len(c.args) == 3 and isinstance(c.args[0], ast.Compare) and len(c.args[0].ops) == 1 and isinstance(c.args[0].ops[0], ast.Eq) and isinstance(c.args[0].comparators[0], ast.Constant) and c.args[0].comparators[0].value == 0 and src(c.args[0].left) == src(c.args[2]):
             # where(x == 0, <replacement>, x): x outside a set of measure zero
             return Deg(degree_of(self.ev(c.args[2], env)))
+        if name == "where" and len(c.args) == 3 and isinstance(c.args[0], ast.Name):
+            # is_zero = x == 0; where(is_zero, ones, x): the flag is its definition
+            from ..common import inline_locals as _il
+
+            cond_ = _il(self.f.node, c.args[0], depth=1)
+            if isinstance(cond_, ast.Compare):
+                c = ast.copy_location(ast.Call(func=c.func, args=[cond_, c.args[1], c.args[2]], keywords=c.keywords), c)
         if name == "where" and len(c.args) == 3 and isinstance(c.args[0], ast.Compare) and len(c.args[0].ops) == 1:
             # the same guard spelled `0 == x`, `x != 0`, or -- for x >= 0 by construction (a norm, an absolute
             # value, a square root) -- `x > 0` / `x <= 0`, with the branches in either order
@@ -643,7 +660,7 @@ class Evaluator:
                     zero_branch = 2
                 if zero_branch is not None:
                     generic = c.args[3 - zero_branch]
-                    if src(generic) == src(l_):
+                    if src(generic) == src(l_) or src(inline_locals(self.f.node, generic)) == src(d_):
                         return Deg(degree_of(self.ev(generic, env)))
         if self.track_sign and name == "sign":
             return Deg({"S": ONE})
@@ -1210,6 +1227,21 @@ class Evaluator:
             self.config[t] = v2
         for t, (nm, eq) in once.items():
             self.config[t] = not eq  # generic iteration: not the singled-out index
+        # a loop-carried boolean flag (`done = False` ... `if not done: done = True; ...`): the iterations before
+        # the flag settles are evaluated one by one
+        if not peel and zipped is None and pos_of is None:
+            for _ in range(2):
+                flags0 = {k: v.const for k, v in e0.items() if isinstance(v, Other) and isinstance(v.const, bool)}
+                if not flags0:
+                    break
+                saved_ret, saved_raw, saved_prob, saved_stores = list(self.returns), list(self.raw_returns), list(self.problems), list(self.stores)
+                trial = body(e0, gen_elem)
+                flipped = [k for k, c0 in flags0.items() if isinstance(trial.get(k), Other) and isinstance(trial[k].const, bool) and trial[k].const != c0]
+                if not flipped:
+                    self.returns, self.raw_returns, self.problems, self.stores = saved_ret, saved_raw, saved_prob, saved_stores
+                    break
+                e0 = trial
+                n_peeled += 1
         rest_len = (length[0] - n_peeled, length[1]) if length[0] != "?" else length
         if isinstance(lst, ListV) and not peel and lst.over and any(isinstance(k, int) for k in lst.over):
             gen_elem = Deg(lst.elem())
